@@ -189,6 +189,13 @@ func (s *Schema) Validate(document jschema.Document) (err error) {
 }
 
 func (s *Schema) validate(document jschema.Document) error {
+	// A validation reads the whole document: start from its beginning whatever
+	// was read from it before, and leave it rewound (as Document.Check does).
+	if r, ok := document.(interface{ Rewind() }); ok {
+		r.Rewind()
+		defer r.Rewind()
+	}
+
 	tree := validator.NewTree(
 		validator.NodeValidatorList(s.inner.RootNode(), *s.inner, nil),
 	)
